@@ -1,4 +1,5 @@
 import H2T.Lemmas.RenderFits
+import H2T.Lemmas.LinksExact
 
 /-! # C08 — link footnotes are numbered consistently with their references
 
@@ -98,5 +99,31 @@ example :
         ls.map fun l => match l with | .text tl => tl.filterMap (fun e => match e with | .cell c => some c.ch.cp | _ => none) | _ => [])
       = some [[91, 97, 93, 91, 49, 93, 32, 91, 98, 93, 91, 50, 93], [], [91, 49, 93, 58, 32, 117], [91, 50, 93, 58, 32, 118]] := by
   decide +kernel
+
+/-! ## exactly the links, and the reference number -/
+
+/-- **in a table-free program the link list is exactly the program's link targets, in document order** (nothing skipped:
+    only cells of zero width can swallow a link) -/
+theorem links_are_exactly_the_targets (cfg : Cfg) (d : Deco) (ops : List Op) (t t' : RS) (hs : tableFreeOps ops = true)
+    (h : runOps SubR.widthMinus cfg d t ops = .ok t') : t'.links = t.links ++ opsHrefs ops :=
+  runOps_links_exact SubR.widthMinus cfg d ops t t' hs h
+
+/-- **the reference number is the link's position in the document**: after a table-free prefix `pre`, a link whose content
+    holds no further link ends with the link list `(links before) + (links in pre) + 1` long — and that length is the
+    number its reference prints (`endLink_reference`, `reference_prints_the_count`) -/
+theorem reference_number_is_link_position (cfg : Cfg) (d : Deco) (t t1 t2 t3 : RS) (pre body : List Op) (href : List Ch)
+    (hp : tableFreeOps pre = true) (hb : tableFreeOps body = true) (hnl : opsHrefs body = [])
+    (h1 : runOps SubR.widthMinus cfg d t pre = .ok t1) (h2 : runOp SubR.widthMinus cfg d t1 (.startLink href) = .ok t2)
+    (h3 : runOps SubR.widthMinus cfg d t2 body = .ok t3) :
+    t3.links.length = t.links.length + (opsHrefs pre).length + 1 :=
+  reference_is_position SubR.widthMinus cfg d t t1 t2 t3 pre body href hp hb hnl h1 h2 h3
+
+/-- the reference is printed from the length of the link list at the moment the link ends -/
+theorem reference_prints_the_count (cfg : Cfg) (d : Deco) (t t' : RS) (hf : cfg.footnotes = true)
+    (h : stepSimple cfg d t .endLink = .ok t') :
+    ∃ t1 : RS, t1.links = t.links ∧
+      t1.onCur (fun s => s.addInlineText cfg (strCh "[" ++ natCh t.links.length ++ strCh "]") d.annOf) = .ok t' := by
+  obtain ⟨t1, _, e1, e2⟩ := endLink_prints_count cfg d t t' hf h
+  exact ⟨t1, e1, e2⟩
 
 end H2T.C08
